@@ -22,7 +22,7 @@ package template
 //@   ensures first-upper: s != "" && !isInitialism(toUpper(s)) ==> r == toUpper(s[0:1]) + s[1:]
 
 //@ func template.templateFuncs[ImportStatement]
-//@   props C11 C15
+//@   props C11 C15 C16
 //@   requires imprt != nil && imprt.pkg != nil
 //@   ensures plain: imprt.Alias == "" ==> r == "\"" + pkgPathOf(imprt) + "\""
 //@   ensures aliased: imprt.Alias != "" ==> r == imprt.Alias + " \"" + pkgPathOf(imprt) + "\""
